@@ -808,6 +808,9 @@ class Table(Vector):
 					target_indices.append(idx)
 				elif isinstance(c, int):
 					target_indices.append(c)
+				else:
+					# (such an entry was skipped in silence: t[0, [1.5]] = 5 wrote nothing and said nothing)
+					raise SerifTypeError(f"Invalid column index type in list: {type(c)}")
 		else:
 			raise SerifTypeError(f"Invalid column index type: {type(col_spec)}")
 
